@@ -1215,6 +1215,11 @@ def run_c10(chk):
                    "<r xmlns='urn:u1'><e a:xmlns='urn:zz' xmlns:a='urn:u2'><a/></e><e xmlns:a='urn:u2' a:p='1'><a/></e></r>"]
     SCOPE_Q += ["//e/@p:x", "//e/@q:x", "//e/@x", "count(//e/@*)", "//e[@q:x = 5]", "string(//e[3]/@p:x)", "//e/attribute::p:x", "//e/@q:*", "//@q:y",
                 "//p:a", "//f/@q:x", "namespace-uri(//f/@*[2])", "//e/p:a", "//q:a", "//@p", "count(//p:*)", "//e/a", "//e/p:a | //e/q:a"]
+    # namespace names are compared as STRINGS (Namespaces in XML 1.0, 2.3): names that differ in case only - against the caller's
+    # bindings urn:u1 / urn:u2, and against each other in one document - are different (round-9 seed C10-M compared them ignoring case)
+    SCOPE_DOCS += ["<r xmlns:p='urn:U1' xmlns:q='URN:u2'><p:a p:x='1' q:x='2'/><q:a/><e xmlns='urn:U1' x='5'><a/></e><e xmlns='urn:u1'><a/></e></r>",
+                   "<r xmlns:p='urn:u1' xmlns:P='URN:U1'><p:a/><P:a/><e p:x='5' P:x='6'/><f P:x='7'/></r>"]
+    SCOPE_Q += ["//p:a | //q:a", "count(//p:* | //q:*)", "//e/@p:x", "//f/@p:x", "//*[namespace-uri() = 'urn:u1']", "count(//@p:*)"]
     SCOPE_Q += ["//@xml:lang", "//@xml:space", "count(//@xml:*)", "namespace-uri((//@xml:space)[last()])", "//*[lang('de')]",
                 "name((//*)[last()]/namespace::xml)", "string((//*)[last()]/namespace::p)", "(//*)[last()]/@xml:space"]
     for sd in SCOPE_DOCS:
